@@ -15,9 +15,9 @@ BUDGET = {"quick": 200, "thorough": 1500}
 
 
 def configs(tier):
-    cs = [Config(levels=2, ndisks=3, contents=["c0/content", "c1/content"])]
+    cs = [Config(levels=2, ndisks=3, contents=["c0/content", "c1/content"]), Config(levels=1, ndisks=2, uuid=True)]
     if tier == "thorough":
-        cs += [Config(levels=1, ndisks=2), Config(levels=3, ndisks=3, splits={0: 2, 1: 2, 2: 2}, parity_limit=6144, hashsize=8)]
+        cs += [Config(levels=3, ndisks=3, splits={0: 2, 1: 2, 2: 2}, parity_limit=6144, hashsize=8)]
     return cs
 
 
